@@ -15,7 +15,7 @@ CONSTANT Deep       \* thorough tier: more base documents
 
 QuickBases ==
   [b1 |-> <<"info", "srv", "tag1", "tag2", "t1", "t3", "e1", "urlAI", "tagged", "rpc">>,
-   b2 |-> <<"t1", "t2", "urlA", "getB", "mac", "useM", "bodyT">>,
+   b2 |-> <<"mac", "t1", "t2", "urlA", "getB", "useM", "bodyT">>,        \* a MACRO definition first (JSIGHT must precede it too)
    b3 |-> <<"tag1", "tag2", "urlT", "tagrep", "t1", "e1", "urlTT", "respB">>]
 DeepBases ==
   [b4 |-> <<"infoV", "srv2", "t1", "reqT", "tAny", "e1", "t4", "pathM">>,
@@ -31,7 +31,7 @@ InsertAt(doc, i, toks) == SubSeq(doc, 1, i) \o toks \o SubSeq(doc, i + 1, Len(do
 F(kind, doc, cls, tok, where, app) == [kind |-> kind, doc |-> doc, cls |-> cls, tok |-> tok, where |-> where, app |-> app]
 \* app: number of trailing tokens that were appended (may be placed in an INCLUDEd file / MACRO body)
 
-NP == {"JSIGHT", "Title", "Version", "SERVER", "BaseUrl", "MACRO", "PASTE", "TAG", "Tags", "Protocol", "Method", "OperationId"}
+NP == {"JSIGHT", "Title", "Version", "SERVER", "BaseUrl", "MACRO", "PASTE", "TAG", "Tags", "Protocol", "Method", "OperationId", "ENUM"}
 AN == {"JSIGHT", "INFO", "Title", "Version", "Description", "BaseUrl", "URL", "Query", "Request", "Headers", "Path",
        "Protocol", "MACRO", "PASTE", "Tags", "OperationId", "Params", "Result"}
 DL == {"Title", "Version", "Description", "BaseUrl", "Query", "Headers", "OperationId", "Protocol", "Path", "Body"}
@@ -40,9 +40,9 @@ BlockStart(bs, x) == 2 + Len(Concat(SubSeq(bs, 1, x - 1), 1))     \* token index
 DupCls(k) == CASE k \in {"TYPE", "ENUM", "SERVER", "TAG", "MACRO"} -> "dupname"
                [] k = "INFO" -> "infoonce" [] k = "URL" -> "duppath" [] OTHER -> "dupinteraction"
 
-\* a Body that belongs to a Request takes no annotation either (a Body of a response does: it annotates the response)
+\* a Body directive takes no annotation, neither under a Request nor under a response (whose annotation stands on the code line)
 BodyOfRequest(doc, x) == doc[x].k = "Body" /\ LET T == RunTree(doc) IN
-                           \E j \in 1..Len(T.nodes) : T.nodes[j].tok = x /\ T.nodes[j].parent # 0 /\ T.nodes[T.nodes[j].parent].k = "Request"
+                           \E j \in 1..Len(T.nodes) : T.nodes[j].tok = x /\ T.nodes[j].parent # 0 /\ T.nodes[T.nodes[j].parent].k \in {"Request", "RESP"}
 
 Faults(b) ==
   LET doc == Doc0(b)  bs == Bases[b]  n == Len(doc) IN
